@@ -174,6 +174,13 @@ def h_relr(ctx):
     ctx.check_eq('relr/num_relocations', tab.num_relocations(), len(want))
     if want:
         ctx.check_eq('relr/get_relocation(last)', tab.get_relocation(len(want) - 1)['r_offset'], want[-1])
+        # the answers do not depend on the order of the questions: on a fresh table, first one entry by index, then the count, the
+        # last entry and the whole enumeration
+        tab2 = RL.RelrRelocationTable(elf, base, k * wsize, wsize)
+        ctx.check_eq('relr/fresh/get_relocation(0)', tab2.get_relocation(0)['r_offset'], want[0])
+        ctx.check_eq('relr/fresh/num_relocations-after-get', tab2.num_relocations(), len(want))
+        ctx.check_eq('relr/fresh/get_relocation(last)-after-get', tab2.get_relocation(len(want) - 1)['r_offset'], want[-1])
+        ctx.check_eq('relr/fresh/addresses-after-get', [r['r_offset'] for r in tab2.iter_relocations()], want)
 
 
 def h_relr_entsize(ctx):
@@ -309,6 +316,10 @@ def h_plumbing(ctx):
         assert defs[name]() == idx[name]
     img.add_shstrtab()
     elf = EF.ELFFile(ctx.stream(img.build()))
+    if cfg.get('history'):
+        # an earlier request with the opposite setting (a tool that first looks at the raw sections, then at the relocated ones,
+        # or the other way round): each call answers for its own arguments
+        elf.get_dwarf_info(relocate_dwarf_sections=not relocate)
     di = elf.get_dwarf_info(relocate_dwarf_sections=relocate)
     got = list(di.debug_info_sec.stream.getvalue())
     ctx.outcome('ok')
@@ -373,6 +384,7 @@ HARNESSES = [
       expect=('ok',),
       desc='the relocation tables reached through the dynamic array (DT_REL / DT_RELA / DT_JMPREL; objects carrying BOTH flavours; pointers mapped through two PT_LOAD segments), '
            'section view and segment view (harness shared with C09)'),
-    H('h8_5_plumbing', h_plumbing, lambda tier: [dict(relname=n, relocate=r, order=o) for n in ('.rela.debug_info', '.rela.debug_infoX', '.rela.text') for r in (True, False) for o in ('after', 'before')], expect=('ok',),
+    H('h8_5_plumbing', h_plumbing, lambda tier: [dict(relname=n, relocate=r, order=o) for n in ('.rela.debug_info', '.rela.debug_infoX', '.rela.text') for r in (True, False) for o in ('after', 'before')] +
+                                                  [dict(relname='.rela.debug_info', relocate=r, order='after', history=True) for r in (True, False)], expect=('ok',),
       desc='generated relocatable x86-64 image: get_dwarf_info(relocate_dwarf_sections) applies exactly the .rela<name> section to the copy handed to DWARFInfo and never touches the file'),
 ]
